@@ -6,7 +6,10 @@
 #include <asmjit/support/arenalist.h>
 #include <asmjit/support/arenatree.h>
 #include <asmjit/support/arenahash.h>
+#include <stdlib.h>
 #include "verif.h"
+// file-local prime tables of the hash are reached by including the unit (it is then not linked separately)
+#include "../../../repo/asmjit/support/arenahash.cpp"
 using namespace asmjit;
 
 // =================================================================================================================
@@ -30,12 +33,8 @@ HARNESS h_list_step() {
   for (unsigned i = 0; i < LN; i++) nodes[i].id = i;
   // pre-state: any sequence of n <= 4 distinct nodes out of 0..3, built by direct link writes
   unsigned n = nondet_u8() % 5; unsigned seq[LN + 1];
-  unsigned perm = nondet_u8() % 24; unsigned pool[4] = {0, 1, 2, 3};
-  for (unsigned i = 0; i < 4; i++) {  // factorial-base decoding of the permutation
-    unsigned r = 4 - i; unsigned k = perm % r; perm /= r;
-    seq[i] = pool[k];
-    for (unsigned j = k; j + 1 < 4; j++) pool[j] = pool[j + 1];
-  }
+  for (unsigned i = 0; i < 4; i++) seq[i] = nondet_u8() & 3;
+  V_ASSUME(seq[0] != seq[1] && seq[0] != seq[2] && seq[0] != seq[3] && seq[1] != seq[2] && seq[1] != seq[3] && seq[2] != seq[3]);
   for (unsigned i = 0; i < 4; i++) if (i < n) {
     nodes[seq[i]]._list_nodes[0] = i ? &nodes[seq[i - 1]] : nullptr;
     nodes[seq[i]]._list_nodes[1] = i + 1 < n ? &nodes[seq[i + 1]] : nullptr;
@@ -77,13 +76,226 @@ struct TNode : public ArenaTreeNodeT<TNode> {
   inline bool operator>(uint32_t k) const noexcept { return key > k; }
 };
 
-HARNESS h_tree_probe() {
-  TNode n[3]; ArenaTree<TNode> t;
-  n[0].key = 10; n[1].key = 5; n[2].key = nondet_u32();
-  V_ASSUME(n[2].key != 10 && n[2].key != 5);
-  t.insert(&n[0]); t.insert(&n[1]); t.insert(&n[2]);
-  TNode* g = t.get(n[2].key);
-  V_ASSERT(g == &n[2], "probe: inserted key is found");
-  V_ASSERT(!t.root()->is_red(), "probe: root black");
-  V_WITNESS("tree-probe");
+
+// Pre-state: any valid red-black tree whose nodes sit at heap positions 1..P of a complete binary tree of depth D (position i
+// has children 2i and 2i+1), with at most MAXN nodes, symbolic distinct keys and symbolic colours, subject to the red-black
+// invariants. Every node is its own object so that the solver resolves the integer-encoded child links per node.
+template<unsigned D> struct TreeShape { static const unsigned P = (1u << D) - 1, Q = (1u << (D + 1)) - 1; };
+
+template<unsigned Q>
+struct Decoded { TNode* pos[2 * Q + 2]; };
+
+// Walks the real tree from the root into heap positions 1..Q and checks: nothing deeper than Q, BST order, root black,
+// no red node with a red child, equal black heights. Returns the number of nodes.
+template<unsigned Q>
+static inline unsigned tree_check(ArenaTree<TNode>& t, Decoded<Q>& d, bool assume_only) {
+  for (unsigned i = 0; i < 2 * Q + 2; i++) d.pos[i] = nullptr;
+  d.pos[1] = t.root();
+  for (unsigned i = 1; i <= Q; i++) if (d.pos[i]) { d.pos[2 * i] = d.pos[i]->left(); d.pos[2 * i + 1] = d.pos[i]->right(); }
+  bool shallow = true; for (unsigned i = Q + 1; i < 2 * Q + 2; i++) if (d.pos[i]) shallow = false;
+  // key bounds per position (exclusive), black heights bottom-up
+  bool order = true, redred = false, balanced = true; unsigned count = 0;
+  uint64_t lo[Q + 1], hi[Q + 1]; unsigned bh[2 * Q + 2];
+  for (unsigned i = 0; i < 2 * Q + 2; i++) bh[i] = 0;
+  lo[1] = 0; hi[1] = uint64_t(1) << 33;
+  for (unsigned i = 1; i <= Q; i++) if (d.pos[i]) {
+    uint64_t k = uint64_t(d.pos[i]->key) + 1;
+    if (!(lo[i] < k && k < hi[i])) order = false;
+    if (2 * i + 1 <= Q) { lo[2 * i] = lo[i]; hi[2 * i] = k; lo[2 * i + 1] = k; hi[2 * i + 1] = hi[i]; }
+    if (d.pos[i]->is_red() && ((d.pos[2 * i] && d.pos[2 * i]->is_red()) || (d.pos[2 * i + 1] && d.pos[2 * i + 1]->is_red()))) redred = true;
+    count++;
+  }
+  for (unsigned i = Q; i >= 1; i--) if (d.pos[i]) {
+    if (bh[2 * i] != bh[2 * i + 1]) balanced = false;
+    bh[i] = bh[2 * i] + (d.pos[i]->is_red() ? 0 : 1);
+  }
+  bool root_black = !d.pos[1] || !d.pos[1]->is_red();
+  if (assume_only) { V_ASSUME(shallow && order && !redred && balanced && root_black); }
+  else {
+    V_ASSERT(shallow, "tree: height stays within the red-black bound for this node count");
+    V_ASSERT(order, "tree: binary search order holds at every node");
+    V_ASSERT(root_black, "tree: root is black");
+    V_ASSERT(!redred, "tree: no red node has a red child");
+    V_ASSERT(balanced, "tree: every path has the same number of black nodes");
+  }
+  return count;
 }
+
+__attribute__((noinline)) static void tree_do_insert(ArenaTree<TNode>& t, TNode* n) { t.insert(n); }
+__attribute__((noinline)) static void tree_do_remove(ArenaTree<TNode>& t, TNode* n) { t.remove(n); }
+__attribute__((noinline)) static TNode* tree_do_get(ArenaTree<TNode>& t, uint32_t k) { return t.get(k); }
+
+template<unsigned D, unsigned MAXN, bool REMOVE>
+static void tree_step() {
+  const unsigned P = TreeShape<D>::P, Q = TreeShape<D>::Q;
+  TNode a1, a2, a3, a4, a5, a6, a7, a8, a9, a10, a11, a12, a13, a14, a15, extra;
+  TNode* nd[16] = {nullptr, &a1, &a2, &a3, &a4, &a5, &a6, &a7, &a8, &a9, &a10, &a11, &a12, &a13, &a14, &a15};
+  bool present[2 * P + 2]; for (unsigned i = 0; i < 2 * P + 2; i++) present[i] = false;
+  unsigned n = 0;
+  for (unsigned i = 1; i <= P; i++) {
+    present[i] = (i == 1 || present[i / 2]) && nondet_bool();
+    if (present[i]) n++;
+  }
+  V_ASSUME(n <= MAXN);
+  for (unsigned i = 1; i <= P; i++) if (present[i]) {
+    nd[i]->key = nondet_u32();
+    bool red = nondet_bool();
+    nd[i]->_tree_nodes[0] = (present[2 * i] ? (uintptr_t)nd[2 * i] : 0) | (red ? 1 : 0);
+    nd[i]->_tree_nodes[1] = present[2 * i + 1] ? (uintptr_t)nd[2 * i + 1] : 0;
+  }
+  ArenaTree<TNode> t; t._root = present[1] ? nd[1] : nullptr;
+  Decoded<P> pre; unsigned n0 = tree_check<P>(t, pre, true);
+  V_ASSERT(n0 == n, "tree: pre-state decodes to the nodes placed");
+  verif_observe(n);
+  Decoded<Q> post;
+  if (!REMOVE) {
+    extra.key = nondet_u32();
+    for (unsigned i = 1; i <= P; i++) if (present[i]) V_ASSUME(nd[i]->key != extra.key);
+    tree_do_insert(t, &extra);
+    unsigned n1 = tree_check<Q>(t, post, false);
+    V_ASSERT(n1 == n + 1, "tree: insert adds exactly one node");
+    unsigned seen_extra = 0; for (unsigned j = 1; j <= Q; j++) if (post.pos[j] == &extra) seen_extra++;
+    V_ASSERT(seen_extra == 1, "tree: inserted node is in the tree once");
+    for (unsigned i = 1; i <= P; i++) if (present[i]) {
+      unsigned seen = 0; for (unsigned j = 1; j <= Q; j++) if (post.pos[j] == nd[i]) seen++;
+      V_ASSERT(seen == 1, "tree: insert keeps every previous node exactly once");
+    }
+    V_ASSERT(tree_do_get(t, extra.key) == &extra, "tree: lookup finds the inserted key");
+    uint32_t probe = nondet_u32(); TNode* g = tree_do_get(t, probe);
+    bool member = probe == extra.key; for (unsigned i = 1; i <= P; i++) if (present[i] && nd[i]->key == probe) member = true;
+    V_ASSERT((g != nullptr) == member && (!g || g->key == probe), "tree: lookup succeeds exactly for member keys");
+    if (n == MAXN) V_WITNESS("tree-insert-into-full-bound");
+    if (n == 0) V_WITNESS("tree-insert-into-empty");
+    V_WITNESS("tree-insert");
+  } else {
+    V_ASSUME(n >= 1);
+    unsigned victim = 1 + nondet_u8() % P; V_ASSUME(present[victim]);
+    uint32_t vkey = nd[victim]->key;
+    tree_do_remove(t, nd[victim]);
+    unsigned n1 = tree_check<Q>(t, post, false);
+    V_ASSERT(n1 == n - 1, "tree: remove takes out exactly one node");
+    for (unsigned i = 1; i <= P; i++) if (present[i]) {
+      unsigned seen = 0; for (unsigned j = 1; j <= Q; j++) if (post.pos[j] == nd[i]) seen++;
+      V_ASSERT(seen == (i == victim ? 0u : 1u), "tree: remove keeps every other node exactly once and drops the victim");
+    }
+    V_ASSERT(tree_do_get(t, vkey) == nullptr, "tree: removed key is no longer found");
+    V_ASSERT(t.is_empty() == (n == 1), "tree: empty iff the last node was removed");
+    if (n == 1) V_WITNESS("tree-remove-last");
+    if (n == MAXN) V_WITNESS("tree-remove-from-full-bound");
+    V_WITNESS("tree-remove");
+  }
+}
+HARNESS h_tree_insert_d2() { tree_step<2, 3, false>(); }
+HARNESS h_tree_remove_d2() { tree_step<2, 3, true>(); }
+HARNESS h_tree_insert_d3() { tree_step<3, 5, false>(); }
+HARNESS h_tree_remove_d3() { tree_step<3, 5, true>(); }
+
+// =================================================================================================================
+// ArenaHash
+struct HNode : public ArenaHashNode { uint32_t key; };
+struct HKey {
+  uint32_t key, code;
+  inline uint32_t hash_code() const noexcept { return code; }
+  inline bool matches(const HNode* n) const noexcept { return n->key == key; }
+};
+
+// Reciprocal-multiplication modulo of every table entry equals the true remainder for every 32-bit hash code.
+HARNESS h_hash_mod() {
+  uint32_t idx = nondet_u8(); V_ASSUME(idx < ASMJIT_ARRAY_SIZE(ArenaHash_prime_array));
+  uint32_t h = nondet_u32();
+  ArenaHash<HNode> t;
+  t._buckets_count = ArenaHash_prime_array[idx].prime; t._rcp_value = ArenaHash_prime_array[idx].rcp; t._rcp_shift = ArenaHash_prime_shift[idx];
+  uint32_t m = t._calc_mod(h);
+  verif_observe(m);
+  V_ASSERT(m == h % t._buckets_count, "hash: reciprocal modulo equals the remainder for every prime of the table");
+  V_ASSERT(uint32_t(t._buckets_count * 0.9) <= t._buckets_count, "hash: grow threshold below the bucket count");
+  V_WITNESS("hash-mod");
+}
+
+extern "C" { void* verif_block_512(); }
+#if !defined(VERIF_CBMC)
+extern "C" { void* verif_block_512() { return malloc(16 + 512); } }
+#endif
+
+// Pre-state: a table with NB buckets (1 = embedded, or a prime of the table held in a harness array) containing 0..4 of the
+// nodes 0..3 with symbolic hash codes (collisions included), chained in any order the insertion history could produce.
+static const unsigned HN = 5;
+struct HState {
+  HNode nodes[HN]; bool in[HN]; unsigned count;
+  ArenaHashNode* buckets[59];
+};
+static inline void hash_build(ArenaHash<HNode>& t, HState& s, unsigned pidx, bool embedded) {
+  for (unsigned i = 0; i < HN; i++) { s.nodes[i]._hash_code = nondet_u32(); s.nodes[i].key = s.nodes[i]._hash_code ^ 0x5A5A5A5Au; s.nodes[i]._hash_next = nullptr; s.nodes[i]._custom_data = i; s.in[i] = false; }
+  for (unsigned i = 0; i < 59; i++) s.buckets[i] = nullptr;
+  for (unsigned i = 0; i < HN; i++) for (unsigned j = 0; j < i; j++) V_ASSUME(s.nodes[i]._hash_code != s.nodes[j]._hash_code);  // distinct keys
+  if (!embedded) {
+    t._data = s.buckets; t._buckets_count = ArenaHash_prime_array[pidx].prime; t._buckets_grow = uint32_t(t._buckets_count * 0.9);
+    t._rcp_value = ArenaHash_prime_array[pidx].rcp; t._rcp_shift = ArenaHash_prime_shift[pidx]; t._prime_index = uint8_t(pidx);
+  }
+  s.count = 0;
+  unsigned limit = embedded ? 1 : 4;
+  for (unsigned i = 0; i < 4; i++) {
+    if (s.count < limit && nondet_bool()) {
+      uint32_t b = s.nodes[i]._hash_code % t._buckets_count;
+      s.nodes[i]._hash_next = t._data[b]; t._data[b] = &s.nodes[i]; s.in[i] = true; s.count++;
+    }
+  }
+  t._size = s.count;
+}
+// Every model member is found once in the bucket of its hash code, nothing else is in the table, size matches.
+static inline void hash_check(ArenaHash<HNode>& t, HState& s, unsigned nb_max) {
+  unsigned expect = 0; for (unsigned i = 0; i < HN; i++) if (s.in[i]) expect++;
+  V_ASSERT(t._size == expect, "hash: size equals the number of members");
+  unsigned total = 0;
+  for (unsigned b = 0; b < nb_max; b++) if (b < t._buckets_count) {
+    ArenaHashNode* q = t._data[b];
+    for (unsigned d = 0; d < HN + 1 && q; d++) {
+      total++;
+      V_ASSERT(d < HN, "hash: bucket chains are acyclic and no longer than the member count");
+      V_ASSERT(q->_hash_code % t._buckets_count == b, "hash: a node sits in the bucket of its hash code");
+      q = q->_hash_next;
+    }
+  }
+  V_ASSERT(total == expect, "hash: the buckets hold exactly as many nodes as the model");
+  for (unsigned i = 0; i < HN; i++) {
+    HKey k{s.nodes[i].key, s.nodes[i]._hash_code};
+    HNode* g = t.get(k);
+    V_ASSERT(g == (s.in[i] ? &s.nodes[i] : nullptr), "hash: lookup finds members and only members");
+  }
+}
+
+template<unsigned PIDX, bool EMBEDDED>
+static void hash_step() {
+  Arena arena(1024);
+  // one 512-byte block: a rehash takes the new bucket array (up to 59 pointers) from it
+  Arena::ManagedBlock* blk = static_cast<Arena::ManagedBlock*>(verif_block_512()); blk->next = nullptr; blk->size = 512;
+  arena._first_block = blk; arena._current_block = blk; arena._ptr = blk->data(); arena._end = blk->data() + 512;
+  arena._min_block_size_shift = 7; arena._current_block_size_shift = 7;
+  ArenaHash<HNode> t; HState s;
+  hash_build(t, s, PIDX, EMBEDDED);
+  unsigned op = nondet_u8() % 3;
+  verif_observe(op); verif_observe(s.count);
+  if (op == 0) {
+    HNode* r = t.insert(arena, &s.nodes[4]); s.in[4] = true;
+    V_ASSERT(r == &s.nodes[4], "hash: insert returns the node");
+    if (EMBEDDED && s.count == 1) { V_ASSERT(t._buckets_count == 29 && t._data != t._embedded && t._prime_index == 2 && t._buckets_grow == 26, "hash: second insert moves from the embedded bucket to 29 buckets"); V_WITNESS("hash-insert-rehash"); }
+    else { V_ASSERT(t._buckets_count == (EMBEDDED ? 1u : ArenaHash_prime_array[PIDX].prime), "hash: insert below the threshold keeps the bucket array"); V_WITNESS("hash-insert"); }
+  } else if (op == 1) {
+    unsigned v = nondet_u8() % HN;
+    HNode* r = t.remove(arena, &s.nodes[v]);
+    V_ASSERT(r == (s.in[v] ? &s.nodes[v] : nullptr), "hash: remove returns the node iff it was a member");
+    if (s.in[v]) V_WITNESS("hash-remove-member"); else V_WITNESS("hash-remove-absent");
+    s.in[v] = false;
+  } else {
+    if (EMBEDDED) { t._rehash(arena, 1); V_ASSERT(t._buckets_count == 11 && t._buckets_grow == 9 && t._prime_index == 1, "hash: rehash to 11 buckets"); }
+    else { t._rehash(arena, PIDX + 2); V_ASSERT(t._buckets_count == ArenaHash_prime_array[PIDX + 2].prime && t._data != s.buckets, "hash: rehash to the prime two steps up"); }
+    V_ASSERT(reinterpret_cast<uint8_t*>(t._data) >= blk->data() && reinterpret_cast<uint8_t*>(t._data + t._buckets_count) <= blk->data() + 512, "hash: new bucket array comes from the arena block");
+    V_WITNESS("hash-rehash");
+  }
+  hash_check(t, s, 59);
+  arena._first_block = nullptr;  // the block is leaked on purpose; the destructor must not walk it (list head is the zero block otherwise)
+  arena._first_block = blk;
+}
+HARNESS h_hash_embedded() { hash_step<0, true>(); }
+HARNESS h_hash_p11() { hash_step<1, false>(); }
+HARNESS h_hash_p29() { hash_step<2, false>(); }
